@@ -14,8 +14,8 @@ import (
 
 	"github.com/openconfig/goyang/pkg/zzsim"
 	"github.com/openconfig/goyang/zzverif/core"
-	"github.com/openconfig/goyang/zzverif/tape"
 	_ "github.com/openconfig/goyang/zzverif/props"
+	"github.com/openconfig/goyang/zzverif/tape"
 )
 
 func usage() {
